@@ -158,7 +158,8 @@ def run(c) -> CaseResult:
 def prim_cases(draw, tier):
     return dict(tau=draw(taus), shape=draw(st.lists(st.integers(1, 4), min_size=1, max_size=3)), seed=draw(st.integers(0, 10**6)),
                 branch=draw(st.sampled_from(["tanh", "sin", "sq", "ugelu", "W"])),
-                warm_dtype=draw(st.sampled_from([None, None, "bfloat16", "float16", "float32"])))
+                warm_dtype=draw(st.sampled_from([None, None, "bfloat16", "float16", "float32"])),
+                lp_dtype=draw(st.sampled_from([None, "bfloat16", "float16", "float32"])))
 
 
 def run_prim(c) -> CaseResult:
@@ -209,6 +210,43 @@ def run_prim(c) -> CaseResult:
         ok = torch.autograd.gradcheck(lambda t: U.residual_apply(f, t, tau), (xs,), eps=1e-6, atol=1e-7, rtol=1e-5, raise_exception=False)
         if ok is not True:
             res.fail("C06.gradcheck", f"gradcheck on residual_apply failed (tau={tau}, branch={c['branch']})")
+    # the same layer on a reduced-precision stream (the dtypes models are trained in): value and x.grad agree with the closed form
+    # evaluated in float64 on the same (rounded) data, to a few roundings of that dtype
+    if c.get("lp_dtype"):
+        dt = getattr(torch, c["lp_dtype"])
+        # (float32: the elementwise kernels themselves - erf, tanh - are only accurate to ~1e-6 of the result's scale)
+        eps = {torch.bfloat16: 2.0**-8, torch.float16: 2.0**-11, torch.float32: 2.0**-19}[dt]
+        res.labels.append("stream-dtype=" + c["lp_dtype"])
+        xl, upl, Wl = x0.to(dt), up.to(dt), W.to(dt)
+        flp = {"tanh": torch.tanh, "sin": torch.sin, "sq": lambda t: torch.tanh(t) ** 2 * 2, "ugelu": U.gelu, "W": lambda t: t @ Wl}[c["branch"]]
+        f64 = {"tanh": torch.tanh, "sin": torch.sin, "sq": lambda t: torch.tanh(t) ** 2 * 2, "ugelu": U.gelu, "W": lambda t: t @ Wl.double()}[c["branch"]]
+        try:
+            xq = xl.clone().requires_grad_()
+            yl = U.residual_apply(flp, xq, tau)
+            (gl,) = torch.autograd.grad(yl, xq, upl)
+        except Exception as e:  # noqa: BLE001
+            res.fail(exc_bucket(f"C06.low-precision.raises:{c['lp_dtype']}", e), f"{type(e).__name__}: {e}")
+        else:
+            xr = xl.double().requires_grad_()
+            fr = f64(xr)
+            d_ = math.sqrt(1 + tau * tau)
+            yr = (xr + tau * fr) / d_
+            (gb,) = torch.autograd.grad(fr, xr, upl.double(), retain_graph=True)
+            (gr,) = torch.autograd.grad(yr, xr, upl.double())
+            ysc = (float(xr.abs().max()) + tau * float(fr.abs().max())) / d_
+            # (the branch derivative is itself computed in the low precision, with absolute error ~eps where it cancels - 1 - tanh^2 near
+            # saturation - so its scale is at least that of the upstream gradient)
+            upm = float(upl.double().abs().max())
+            gsc = (upm + tau * max(upm, float(gb.abs().max()))) / d_
+            tiny = {torch.bfloat16: 2.0**-133, torch.float16: 2.0**-24, torch.float32: 2.0**-149}[dt]
+            if yl.dtype != dt or gl.dtype != dt:
+                res.fail("C06.low-precision.dtype", f"stream of dtype {dt}: output {yl.dtype}, gradient {gl.dtype}")
+            elif not bool(((yl.double() - yr.detach()).abs() <= 8 * eps * ysc + 8 * tiny).all()):
+                res.fail(f"C06.low-precision.value:{c['lp_dtype']}", f"{c['lp_dtype']} stream: output differs from (x + tau f(x))/sqrt(1+tau^2) by "
+                         f"{float((yl.double() - yr.detach()).abs().max()):.3g} (scale {ysc:.3g}, tau={tau}, branch={c['branch']})")
+            elif not bool(((gl.double() - gr).abs() <= 8 * eps * gsc + 8 * tiny).all()):
+                res.fail(f"C06.low-precision.input-gradient:{c['lp_dtype']}", f"{c['lp_dtype']} stream: x.grad differs from the derivative of the closed form by "
+                         f"{float((gl.double() - gr).abs().max()):.3g} (scale {gsc:.3g}, tau={tau}, branch={c['branch']})")
     # a branch that starts with an in-place op (nn.ReLU(inplace=True) is common in residual branches), with gradient tracking,
     # under no_grad and for an input that does not require grad: the skip path and the caller's x must not be touched
     for mode in ("grad", "no_grad", "no-requires-grad"):
